@@ -15,11 +15,16 @@ def violates(run, case, impl, model):
     in which the local servers see calls, and the results seen by local callers are the machine's."""
     if rc.crashed(impl):
         return True
-    n, ev, i, m = rc.first_diff(case, impl, model)
-    im, idl, iap, _ = rc.parts(i)
-    mm, mdl, map_, _ = rc.parts(m)
-    pick = lambda ms: sorted(re.sub(r",.*", "", x) for x in ms if x[0] in "RBCF")
-    return pick(im) != pick(mm) or idl != mdl or iap != map_
+    # every step, not only the first difference: a lost Disembargo (not itself a C06 message) shows as a
+    # different delivery order some events later
+    _, io, mo = rc.steps(case, impl, model)
+    pick = lambda ms: sorted(re.sub(r",.*", "", x) for x in ms if x[0] in "RBCFD")
+    for k in range(max(len(io), len(mo))):
+        im, idl, iap, _ = rc.parts(io[k] if k < len(io) else "")
+        mm, mdl, map_, _ = rc.parts(mo[k] if k < len(mo) else "")
+        if pick(im) != pick(mm) or idl != mdl or iap != map_:
+            return True
+    return False
 
 
 LEVEL_TEXT = ("Other (history-level proofs of one_return and of the first half of question_ids + differential run): proved for "
